@@ -11,7 +11,7 @@ BUDGET = {"quick": dict(cases=1600), "thorough": dict(cases=45000)}
 MIN_NONTRIVIAL = {"quick": 2000, "thorough": 30000}
 BLOB = (400, 1600)
 RULE = ("Hypothesis byte-backed generator: tables of 2-7 commands in 1-3 groups with 0-5 variables each (5 types x sizes incl. unsupported 3/8 x "
-        "3 access modes x named/unnamed), all handler subsets, only_test / disable / group-disable / implicit_write (without variables) in any "
+        "3 access modes x named/unnamed, variable names of up to 40 characters), one case in ten with a command array registered through two groups (one of them disabled), all handler subsets, only_test / disable / group-disable / implicit_write (without variables) in any "
         "combination, description present or not, plus a lister command returning PRINT_CMD_LIST_OK. Run A: shared (even and odd size) or separate buffers, capacity chosen -2..+2 around the "
         "length of a list line or TEST text (or random): the command list, every AT<cmd>=? and one unsolicited TEST event are compared byte-for-byte "
         "with the Formatter (ERROR instead of a truncated line). Run B: generous capacity: the list is compared again and every request form of every "
@@ -82,10 +82,12 @@ def gen(d, tier):
     for g in groups:
         if not any(c is lister for c in g["cmds"]) and d.unlikely(1, 5):
             g["disable"] = 1
+    if d.unlikely(1, 10):
+        G.add_alias(d, groups)      # one command array registered through two groups, one of the two disabled: listed and answered once
     # text lengths
     tmp = S.mk_spec(groups=groups, bufsz=2000)
     m0 = ref.Model(tmp)
-    lens = [len(x[2]) for x in ref.cmd_list_lines(m0.cs, m0.dis(), b"\n")]
+    lens = [len(x[2]) for x in ref.cmd_list_lines([m0.cs[i] for i, g in m0.slots], m0.slot_dis(), b"\n")]
     for i in range(len(m0.cs)):
         tt = ref.test_text(m0.cs[i], b"\n")
         if tt is not None:
@@ -204,7 +206,7 @@ def run(case, W):
         elif p.form == "t" and p.target is not None:
             labels.add("test-ok" if p.result == b"OK" else "test-error")
     m0 = ref.Model(sa)
-    lens = [len(x[2]) for x in ref.cmd_list_lines(m0.cs, m0.dis(), b"\r\n" if case["crlf"] else b"\n")]
+    lens = [len(x[2]) for x in ref.cmd_list_lines([m0.cs[i] for i, g in m0.slots], m0.slot_dis(), b"\r\n" if case["crlf"] else b"\n")]
     for c in m0.cs:
         tt = ref.test_text(c, b"\r\n" if case["crlf"] else b"\n")
         if tt is not None:
